@@ -354,3 +354,18 @@ impl Sixel {
         self.size = size;
     }
 }
+
+/// Verification hook (only with `--cfg icy_engine_verif`): when a gate is installed every sixel decode
+/// thread calls it with its arrival number before decoding, so a harness can hold and release decodes
+/// in a chosen order. Without a gate (the default) nothing happens.
+#[cfg(icy_engine_verif)]
+pub static VERIF_SIXEL_GATE: std::sync::RwLock<Option<fn(usize)>> = std::sync::RwLock::new(None);
+#[cfg(icy_engine_verif)]
+pub static VERIF_SIXEL_SEQ: std::sync::atomic::AtomicUsize = std::sync::atomic::AtomicUsize::new(0);
+#[cfg(icy_engine_verif)]
+pub fn verif_sixel_gate(seq: usize) {
+    let gate = *VERIF_SIXEL_GATE.read().unwrap();
+    if let Some(gate) = gate {
+        gate(seq);
+    }
+}
